@@ -30,7 +30,9 @@ def cells(tier, seed):
 
 def run_cell(cell, rec, seed):
     for rep in range(cell["reps"]):
-        st = lc.setup(cell, seed, "C07", rep)
+        # the chain-rule oracle never forms the joint matrix, so noise and prior covariances of
+        # very different absolute scale (an ill-conditioned joint) are judged too
+        st = lc.setup(cell, seed, "C07", rep, wide=True)
         if st is None:
             rec.count("out_of_domain")
             continue
@@ -48,7 +50,13 @@ def run_cell(cell, rec, seed):
         ly = np.stack([orc.mvn_logpdf_elem(y, x @ tj.M[r].T + tj.b[r], np.tile(
             tj.Sigma_c[r][None], (N, 1, 1))) for r in range(Rc * Rx)])
         lx = orc.mvn_logpdf(x, tj.mu_x, tj.Sigma_x)
-        ns = orc.mvn_logpdf_abs(x, tj.mu_x, tj.Sigma_x) + np.abs(ly) + Dy
+        # natural scale: the joint is evaluated from its natural parameters, i.e. from the
+        # expanded quadratic form; its terms are those of (|y| + |M||x| + |b|)' |L_c| (same)
+        Lc = np.abs(orc.inv(tj.Sigma_c))
+        ay = np.abs(y)[None] + np.einsum("rab,nb->rna", np.abs(tj.M), np.abs(x)) + np.abs(
+            tj.b)[:, None]
+        ns = orc.mvn_logpdf_abs(x, tj.mu_x, tj.Sigma_x) + np.abs(ly) + Dy + 0.5 * np.einsum(
+            "rna,rab,rnb->rn", ay, Lc, ay)
         got = lc.call(rec, "evaluate_ln", lambda: j.evaluate_ln(J(z)), info)
         if got is not None:
             rec.close("chain rule", got, ly + lx, ns=ns, detail=info, mech="chain-rule")
@@ -56,11 +64,13 @@ def run_cell(cell, rec, seed):
                   mech="joint-mu")
         rec.close("joint Sigma", j.Sigma, tj.Sigma_xy, ns=np.max(np.abs(tj.Sigma_xy)),
                   detail=info, mech="joint-Sigma")
-        L_ref = orc.inv(tj.Sigma_xy)
-        rec.close("joint Lambda", j.Lambda, L_ref, ns=np.max(np.abs(L_ref), axis=(1, 2),
-                                                             keepdims=True), detail=info,
-                  mech="joint-Lambda")
-        ld = orc.slogdet(tj.Sigma_xy)
+        if not info["joint_ill_conditioned"]:
+            L_ref = orc.inv(tj.Sigma_xy)
+            rec.close("joint Lambda", j.Lambda, L_ref, ns=np.max(np.abs(L_ref), axis=(1, 2),
+                                                                 keepdims=True), detail=info,
+                      mech="joint-Lambda")
+        # ln det Sigma_xy = ln det Sigma_x + ln det Sigma_{y|x}: exact and well conditioned
+        ld = orc.slogdet(tj.Sigma_x) + orc.slogdet(tj.Sigma_c)
         rec.close("joint ln_det_Sigma", j.ln_det_Sigma, ld, ns=1.0 + np.abs(ld) + Dx + Dy,
                   detail=info, mech="joint-ln_det")
         # library-internal chain rule: cond(x)(y) + p_x(x)
